@@ -1002,6 +1002,16 @@ func ruleCacheFresh(c *Ctx, h *ssa.Function, docStore ssa.CallInstruction, docFi
 								okLevel = true
 							}
 						}
+						// the sweep written in place: a function literal of the handler that deletes, handed to this call
+						for _, a := range call.Common().Args {
+							if mc, isMc := stripConv(a).(*ssa.MakeClosure); isMc {
+								for _, u := range deletes[fld] {
+									if u.f == mc.Fn {
+										okLevel = true
+									}
+								}
+							}
+						}
 					}
 				}
 			}
